@@ -312,6 +312,12 @@ def apply_fault(rng, text: str, fault: str) -> bytes:
     raise ValueError(fault)
 
 
+SPECIAL_VALID_QUERIES = [
+    "$['a b']", "$[?@ == 'a  b']", "$[?length(@) == 1]", "$[?length(@) == 2]", "$[?match(@, 'A')]", "$[?match(@, 'a')]", "$[?search(@, 'B')]",
+    "$.*", "$[*, *]", "$..*", "$[0, 0]", "$['a', 'a']", "$[*, 0]", "$[0:2, 1:3]", "$[-1, 0]", "$[?@ == 1.0]", "$[?@ == 1]", "$[?@ == null]",
+    "$[?@ == -0.0]", "$[?@ > 1e15]", "$[?@ == 10000000000000000]", "$..[?@ == @]", "$[?@ == 'e\u0301']", "$[?@ == '\u00e9']", "$['']", "$['$']", "$['*']",
+    "$[ 0 ]", "$ [0]", "$[?@.a == 'x' ]", "$[?count(@.*) == 0]", "$[?value(@.*) == 1]", "$[::-1]", "$[1::2]", "$[:0]", "$[?@ != @]", "$..['a', 'a']",
+]
 FUZZ_CHARS = ("\r", "\t", "\x00", "\x1b[31m", "\u2028", "\u00a0", "\x0c", "\n", "'", '"', "\\", "[", "]", "(", ")", "?", "@", "$", ".", "..", ",", ":", "*", "!", "&&", "||", "==", "<", "0", "-", "1e", "\\u", "\\ud83d", "\\udc00", "é", "\U0001f600")
 
 
@@ -366,6 +372,34 @@ def fuzz_query(rng) -> str:
     return text
 
 
+def _spread_over_lines(rng, q: str) -> str:
+    """Put line breaks (blank space RFC 9535 allows between segments) before some
+    top-level '[' or '.' of a query: a query file may well span several lines."""
+    out, depth, quote, i = [], 0, None, 0
+    while i < len(q):
+        c = q[i]
+        if quote:
+            if c == "\\" and i + 1 < len(q):
+                out.append(q[i : i + 2])
+                i += 2
+                continue
+            if c == quote:
+                quote = None
+        elif c in "'\"":
+            quote = c
+        elif c in "[(":
+            if c == "[" and depth == 0 and i > 0 and rng.random() < 0.5:
+                out.append(rng.choice(("\n", "\r\n", "\n  ", " \n\t")))
+            depth += 1
+        elif c in "])":
+            depth -= 1
+        elif c == "." and depth == 0 and i > 0 and q[i - 1] != "." and rng.random() < 0.5:
+            out.append(rng.choice(("\n", "\r\n", "\n  ")))
+        out.append(c)
+        i += 1
+    return "".join(out)
+
+
 def gen_scenario(rng) -> Dict[str, Any]:
     worker_init()
     r = rng.random()
@@ -377,9 +411,13 @@ def gen_scenario(rng) -> Dict[str, Any]:
         cls = rng.choice(sorted(_ERR_QUERIES))
         qtext = rng.choice(_ERR_QUERIES[cls])
         qclass = f"compile:{cls}"
-    elif r < 0.9:
+    elif r < 0.86:
         qtext = rng.choice(EVAL_ERROR_QUERIES)
         qclass = "eval-error-candidate"
+    elif r < 0.9:
+        # valid queries where a front end that is not exactly find() would differ
+        qtext = rng.choice(SPECIAL_VALID_QUERIES)
+        qclass = "special-valid"
     else:
         qtext = fuzz_query(rng)
         qclass = "fuzzed"
@@ -402,10 +440,10 @@ def gen_scenario(rng) -> Dict[str, Any]:
     argv: List[str] = []
     query_effective = qtext
     if rng.random() < 0.3:
-        argv.append("--pretty")
+        argv.append(rng.choice(("--pretty", "--pretty", "--pre")))  # argparse accepts unambiguous abbreviations
     debug = rng.random() < 0.2
     if debug:
-        argv.append("--debug")
+        argv.append(rng.choice(("--debug", "--deb")))
     if delivery == "-q":
         argv += ["-q", qtext]
     elif delivery == "--query=":
@@ -418,6 +456,8 @@ def gen_scenario(rng) -> Dict[str, Any]:
         if r2 < 0.15 and body:
             qfile_fault = "truncated"
             body = body[: rng.randrange(len(body))]
+        if r2 >= 0.26 and rng.random() < 0.25:
+            body = _spread_over_lines(rng, body)
         raw = (pad_l + body + pad_r).encode("utf-8")
         query_effective = (pad_l + body + pad_r).strip()
         if 0.15 <= r2 < 0.22:
@@ -444,8 +484,10 @@ def gen_scenario(rng) -> Dict[str, Any]:
     else:
         stdin_bytes = doc_bytes
     out = rng.choice(("stdout", "stdout", "-o"))
+    if out == "stdout" and rng.random() < 0.1:
+        argv += [rng.choice(("-o", "--output", "--out")), "-"]  # '-' means standard output
     if out == "-o":
-        argv += ["-o", "/out.json"]
+        argv += [rng.choice(("-o", "-o", "--output", "--out")), "/out.json"]
         if rng.random() < 0.35:
             files["/out.json"] = ("[" + "\"stale\", " * rng.choice((3, 400)) + "0]\n").encode()
     nchunk = rng.choice((0, 1, 2, 3))
@@ -463,7 +505,7 @@ def gen_scenario(rng) -> Dict[str, Any]:
         "fault": fault,
         "channel": channel,
         "out": out,
-        "pretty": "--pretty" in argv,
+        "pretty": "--pretty" in argv or "--pre" in argv,
         "debug": debug,
     }
 
@@ -624,7 +666,7 @@ def shrink_candidates(payload: Dict[str, Any]):
     for opt in ("--pretty", "--debug"):
         if opt in sc["argv"] and opt != "--debug":
             a2 = [a for a in sc["argv"] if a != opt]
-            yield {"scenario": {**sc, "argv": a2, "pretty": "--pretty" in a2}}
+            yield {"scenario": {**sc, "argv": a2, "pretty": "--pretty" in a2 or "--pre" in a2}}
     if sc["chunks"]:
         yield {"scenario": {**sc, "chunks": []}}
     # shrink the document bytes (halves, then single deletions near the end)
